@@ -17,12 +17,13 @@ pub fn run(check: &mut Check) {
     let heap = check.id == "C11";
     check.rule = format!(
         "proxy worlds (an interface of 1..3 functions with 0..4 parameters and an optional result over the WIT value types the C backend supports — scalars, strings, lists, options, results, tuples, records, variants, enums, flags of 1..32 members — nested up to depth 3; imported and exported by the same world) x 3 random value sets per function x C option variants {{default, --no-sig-flattening, --autodrop-borrows=yes}}; the generated C is compiled natively into a shared object whose exported functions forward to the imported ones (and release their owned arguments with the generated *_free helpers, as crates/c/README.md prescribes); the reference canonical ABI (refabi, P = 8) plays the host on both sides; \
-        oracle ({}): {}; non-trivial = call whose types own heap data; distinct by (world, call)",
+        oracle ({}): {}; non-trivial = call whose types own heap data; distinct by (world, call){}",
         check.id,
-        if heap { "after every call and its post-return the malloc/free ledger has exactly the blocks it had before, and nothing is freed that is not a live block (import arguments are left to the caller, post-return frees the returned value, the free helpers free exactly the owned memory)" } else { "both values arrive unchanged, the import is called exactly once with the arity the canonical ABI prescribes" }
+        if heap { "after every call and its post-return the malloc/free ledger has exactly the blocks it had before, and nothing is freed that is not a live block (import arguments are left to the caller, post-return frees the returned value, the free helpers free exactly the owned memory)" } else { "both values arrive unchanged, the import is called exactly once with the arity the canonical ABI prescribes" },
+        if heap { ". Resource half: a fixed interface shape (exported resource with constructor, method, static function; free functions taking/returning own and borrow handles, list<own>, option<own>; exported functions over an imported resource: borrow, own, list<own>) x 6 resource names (single- and multi-word) x C variants {default, --autodrop-borrows=yes, --no-sig-flattening}, compiled natively with user code whose representation records its destruction and a host (handle tables, resource.new/rep/drop, canonical lowering of own/borrow) that reaches every core function through its canonical export/import name; generated host operation sequences (1..20 of create / make / get / peek / take / merge / host-drop / list / option / use-it / eat / eat-many, greedy shrinking); oracle: model of the value behind each handle - the user destructor runs exactly once per value and in the operation that ends its last owner, every read returns the model value, no resource.rep/drop of a dead handle, a borrowed handle of the imported resource is released exactly once before the export returns (by the bindings with autodrop, by the user code otherwise), and after the host dropped everything no handle, value or heap block is left; non-trivial = sequence that transfers or drops a handle" } else { "" }
     );
     check.assumptions.push("native x86-64 execution with clang; the wasm import/export attributes are inert natively, the import declarations are defined by the glue file".into());
-    check.assumptions.push("utf16 strings, maps, fixed-length lists, resources, futures and streams are not part of these worlds (the reference host speaks utf8; the others are declared unsupported by crates/test/src/c.rs or belong to other properties)".into());
+    check.assumptions.push("utf16 strings, maps, fixed-length lists, futures and streams are not part of these worlds, resources only of the constructed resource half of C11 (the reference host speaks utf8; the others are declared unsupported by crates/test/src/c.rs or belong to other properties)".into());
     if check.is_replay() {
         vcommon::harness_error("C10/C11 build batches of worlds; re-run ./check <ID> quick to reproduce (worlds are a function of VERIF_SEED)");
     }
@@ -77,6 +78,63 @@ pub fn run(check: &mut Check) {
             }
             Ok(())
         });
+    }
+    if std::env::var("VERIF_KEEP").is_err() {
+        let _ = std::fs::remove_dir_all(&root);
+    }
+    if heap {
+        resources(check);
+    }
+}
+
+/// resource half of C11 (see c11x.rs)
+fn resources(check: &mut Check) {
+    use crate::c11x::{self, Flavour};
+    let thorough = check.tier == vcommon::Tier::Thorough;
+    let mut flavours: Vec<Flavour> = vec![];
+    for name in 0..c11x::NAMES.len() {
+        for k in 0..if thorough { c11x::VARIANTS.len() } else { 1 } {
+            flavours.push(Flavour { name, variant: (name + k) % c11x::VARIANTS.len() });
+        }
+    }
+    let per = std::env::var("VERIF_NSEQ").ok().and_then(|s| s.parse().ok()).unwrap_or(check.tier.pick(400usize, 4000));
+    let seqs: Vec<Vec<c11x::Op>> = check.draw("resources", &c11x::sequence(), per * flavours.len());
+    let root = std::path::PathBuf::from("/verif/target/execc11x");
+    let _ = std::fs::remove_dir_all(&root);
+    let built: Vec<_> = flavours.par_iter().enumerate().map(|(i, f)| c11x::build(&root.join(format!("r{i}")), f)).collect();
+    for (k, (fl, b)) in flavours.iter().zip(&built).enumerate() {
+        let b = match b {
+            Ok(b) => b,
+            Err((sig, msg)) if sig == "harness" => vcommon::harness_error(msg.clone()),
+            Err((sig, msg)) => {
+                check.case("resources", &serde_json::json!({"flavour": fl, "resource": c11x::NAMES[fl.name]}), |_, _| Err(Failure::new(sig.clone(), format!("{msg}\nWIT:\n{}", c11x::wit(fl)))));
+                continue;
+            }
+        };
+        let mine = &seqs[k * per..(k + 1) * per];
+        let refs: Vec<&[c11x::Op]> = mine.iter().map(|s| s.as_slice()).collect();
+        let results = match c11x::run(b, &refs) {
+            Ok(r) => r,
+            Err(e) => vcommon::harness_error(e),
+        };
+        for (ops, fails) in mine.iter().zip(results) {
+            let label = serde_json::json!({"resource": c11x::NAMES[fl.name], "variant": c11x::VARIANTS[fl.variant].0, "ops": ops});
+            check.case("resources", &label, |_, obs| {
+                obs.evals = ops.len() as u64;
+                obs.label(format!("resources:{}", c11x::VARIANTS[fl.variant].0));
+                if ops.iter().any(|o| matches!(o, c11x::Op::Take(_) | c11x::Op::Merge(..) | c11x::Op::Many(_) | c11x::Op::Opt(Some(_)) | c11x::Op::Drop(_) | c11x::Op::UseIt(_))) {
+                    obs.nontrivial_by(&(fl, ops));
+                }
+                match fails.into_iter().next() {
+                    Some((sig, msg)) => {
+                        let small = c11x::shrink(b, ops, &sig);
+                        let msg = c11x::run(b, &[&small]).ok().and_then(|r| r[0].iter().find(|(s, _)| *s == sig).map(|x| x.1.clone())).unwrap_or(msg);
+                        Err(c11x::failure_of(fl, b, &small, &sig, &msg))
+                    }
+                    None => Ok(()),
+                }
+            });
+        }
     }
     if std::env::var("VERIF_KEEP").is_err() {
         let _ = std::fs::remove_dir_all(&root);
